@@ -77,6 +77,7 @@ func init() {
 		Assumptions: []string{refAssumption, "in-domain date-times are civil times that exist in the process zone (built UTC->local); system dates 2000..2068", "tz database: the one installed under /usr/share/zoneinfo (fallback: Go's embedded time/tzdata)"},
 		Plan: func(tier string) []Batch {
 			b := same(n(tier, 4, 8), Batch{Mode: "utc-deep", Timeout: 20 * time.Minute})
+			b = append(b, same(n(tier, 2, 4), Batch{Mode: "race", Race: true, Timeout: 20 * time.Minute, Procs: 8})...)
 			return append(b, zoneBatches(n(tier, 40, 0), "tz", 10*time.Minute)...)
 		}}
 }
